@@ -308,6 +308,56 @@ func TestVerifC08PeriodAlignZone(t *testing.T) {
 	defer func() { time.Local = saved }()
 	zones := []int{0, 5*3600 + 1800, -8 * 3600, 14 * 3600, 5*3600 + 2700, -(3*3600 + 1800), 3600, -11 * 3600}
 	periods := []int{60, 900, 1800, 3600, 21600, 86400}
+	// limiters constructed now and first used more than a second later: the window
+	// is aligned at the time of the take, not at the time of construction
+	type early struct {
+		period int
+		prefix string
+		pl     *PeriodLimit
+	}
+	var earlies []early
+	time.Local = time.FixedZone("c08early", 5*3600+1800)
+	for k, period := range []int{2, 7, 60, 3600, 86400} {
+		prefix := fmt.Sprintf("c08zE%d:", k)
+		earlies = append(earlies, early{period, prefix, NewPeriodLimit(period, 3, store, prefix, Align())})
+	}
+	constructed := time.Now()
+	defer func() {
+		time.Local = time.FixedZone("c08early", 5*3600+1800)
+		if d := 1200*time.Millisecond - time.Since(constructed); d > 0 {
+			time.Sleep(d) // not a verdict: only makes sure wall time has moved on since construction
+		}
+		for k, e := range earlies {
+			idx := 1000 + k
+			if !m.Only(idx) {
+				continue
+			}
+			desc := fmt.Sprintf("case=%d;{\"zone_offset_s\":19800,\"period\":%d,\"constructed_before_take_ms\":%d}", idx, e.period, time.Since(constructed).Milliseconds())
+			before := time.Now()
+			e0 := srv.evals.Load()
+			_, err := e.pl.Take("u")
+			ev := srv.evals.Load() - e0
+			after := time.Now()
+			if ev != 1 || err != nil {
+				m.Count("alignzone.abandoned", 1)
+				continue
+			}
+			w1, w2 := c08AlignTTL(before, e.period), c08AlignTTL(after, e.period)
+			got := int(srv.mr.TTL(e.prefix+"u") / time.Second)
+			m.Count("alignzone.take-long-after-construction", 1)
+			if w1 != w2 {
+				m.Count("alignzone.ambiguous", 1)
+				continue
+			}
+			m.Case(vk.Digest("early", e.period, got), true)
+			if got != w1 {
+				m.Violate("C08:period:align-ttl:stale-since-construction", desc,
+					"limiter constructed %v before its first take (period %ds, local zone UTC+5:30): counter key got TTL %ds, the next local multiple of the period is %ds away at the time of the take",
+					after.Sub(constructed).Round(time.Millisecond), e.period, got, w1)
+			}
+		}
+		time.Local = saved
+	}()
 	idx := 0
 	for zi, off := range zones {
 		time.Local = time.FixedZone(fmt.Sprintf("c08z%d", zi), off)
